@@ -1,6 +1,7 @@
 import PySMT.Proofs.C05Type
 import PySMT.Proofs.C05Spec
 import PySMT.Proofs.SimpSorts
+import PySMT.Proofs.C05Array
 /-!
 # C05 — the substitution lemma (`subst_lemma`) and the interpretation lemma (`interp_lemma`)
 -/
@@ -21,7 +22,8 @@ theorem rat_div_eq (x c : Rat) : x / c = x * (1 / c) := by
 theorem eval_shape {I : Interp} {op : Op} {p : Payload} {as' : List Term} {r : Term}
     (h1 : op ≠ .symbol) (h2 : op ≠ .function) (h3 : op.isQuantifier = false)
     (hs : Shape op p as' r)
-    (hnot : ∀ b pl, as' = [.node .not [b] pl] → ∃ bb, eval I b = .b bb) :
+    (hnot : ∀ b pl, as' = [.node .not [b] pl] → ∃ bb, eval I b = .b bb)
+    (harr : op = .arrayValue → eval I (mkArray p as') = evalOp I .arrayValue p (as'.map (eval I))) :
     eval I r = evalOp I op p (as'.map (eval I)) := by
   cases hs with
   | node => exact eval_plain I op as' p h1 h2 h3
@@ -47,6 +49,7 @@ theorem eval_shape {I : Interp} {op : Op} {p : Payload} {as' : List Term} {r : T
       simp only [evalOp, Sem.prod, List.foldl, Sem.mul, Sem.div, hc, if_false]
       rw [rat_div_eq x c]
     | _ => simp [evalOp, Sem.prod, Sem.mul, Sem.div]
+  | array ho => subst ho; exact harr rfl
 
 /-! ## symbol-keyed maps -/
 
@@ -344,19 +347,134 @@ theorem not_sym_of_op {op : Op} {args : List Term} {p : Payload} (h : op ≠ .sy
     ∀ x, Term.node op args p ≠ Term.sym x := by
   intro x e; apply h; simp only [Term.sym, Term.node.injEq] at e; exact e.1
 
+/-! ## array values
+
+`ConstKeys t` : the keys of every array value in `t` are constant nodes (Bool / Int / Real / BV /
+String constants) — what `Array(idx, default, {k: v …})` guarantees for every index sort that is not
+itself an array sort. Together with `normal` (keys pairwise distinct, no default-valued pair) this is
+the guard under which rebuilding an array value (`Build.mkArray`) keeps its meaning. -/
+
+def ConstKeys : Term → Bool
+  | .node op args _ =>
+    (args.map ConstKeys).all id &&
+      (op != .arrayValue || (pairsOf args.tail).all (fun kv => kv.1.op.isConstant))
+
+theorem ConstKeys_node (op : Op) (args : List Term) (p : Payload) :
+    ConstKeys (.node op args p) = ((args.map ConstKeys).all id &&
+      (op != .arrayValue || (pairsOf args.tail).all (fun kv => kv.1.op.isConstant))) := by
+  rw [ConstKeys]
+
+theorem ConstKeys_child {op args p} (h : ConstKeys (.node op args p) = true) : ∀ a ∈ args, ConstKeys a = true := by
+  intro a ha
+  rw [ConstKeys_node] at h
+  simp only [Bool.and_eq_true, List.all_eq_true, List.mem_map] at h
+  exact h.1 _ ⟨a, ha, rfl⟩
+
+theorem ConstKeys_here {args p} (h : ConstKeys (.node .arrayValue args p) = true) :
+    ∀ kv ∈ pairsOf args.tail, kv.1.op.isConstant = true := by
+  rw [ConstKeys_node] at h
+  simp only [Bool.and_eq_true, bne_self_eq_false, Bool.false_or, List.all_eq_true] at h
+  exact h.2
+
+/-- a constant node has a scalar type -/
+theorem const_scalar : (k : Term) → k.op.isConstant = true → ∀ idx, k.typeOf = some idx → idx.scalar = true
+  | .node op args p, hc, idx, hty => by
+    rw [typeOf_node] at hty
+    cases op <;> simp [Term.op, Op.isConstant] at hc <;> cases args <;> (try cases p) <;>
+      first
+      | (cases hty; rfl)
+      | (cases hty)
+
+theorem not_sym_of_op' {op : Op} {args : List Term} {p : Payload} (h : op ≠ .symbol) :
+    ∀ x, Term.node op args p ≠ Term.sym x := by
+  intro x e; apply h; simp only [Term.sym, Term.node.injEq] at e; exact e.1
+
+/-- constants are left alone by a symbol-keyed substitution -/
+theorem substG_const (ms : Bool) (h : FnHandler) (σ : SMap) : (k : Term) → k.op.isConstant = true → k.wf = true →
+    substG ms h σ.toTMap k = k
+  | .node op args p, hc, hwf => by
+    obtain ⟨_, hshape, _⟩ := Term.wf_node.mp hwf
+    have hargs : args = [] := by
+      cases op <;> simp [Term.op, Op.isConstant] at hc <;> cases args <;>
+        first | rfl | (cases p <;> simp [Op.shapeOK] at hshape)
+    subst hargs
+    have hsym : op ≠ .symbol := by intro e; subst e; simp [Term.op, Op.isConstant] at hc
+    have hfun : op ≠ .function := by intro e; subst e; simp [Term.op, Op.isConstant] at hc
+    have hsp : special op = false := by
+      cases op <;> simp [Term.op, Op.isConstant] at hc <;> rfl
+    have hb : build h op p [] = .node op [] p := by
+      unfold build; split
+      · next heq _ => exact absurd rfl hfun
+      · exact rebuild_generic op p [] hsp
+    rw [substG]
+    simp only [List.map_nil, hb, lookup_toTMap_ne σ _ (not_sym_of_op' hsym)]
+    cases ms <;> rfl
+
+theorem normal_array_nodup {p : Payload} {d : Term} {rest : List Term}
+    (hn : normalNode .arrayValue p (d :: rest) = true) : ((pairsOf rest).map Prod.fst).Nodup := by
+  simp only [normalNode, decide_eq_true_eq] at hn
+  have h2 : pairsOf rest = (pyDict (pairsOf rest)).filter (fun kv => kv.2 ≠ d) := by
+    conv => lhs; rw [hn]
+    exact pairsOf_unpairs _
+  rw [h2]
+  exact List.Nodup.sublist (List.Sublist.map _ (List.filter_sublist)) (pyDict_keys_nodup _)
+
+/-- rebuilding an array value whose keys are pairwise distinct constants from symbol-substituted
+children keeps its meaning (the keys are unchanged; the pairs that became default-valued are dropped) -/
+theorem mkArray_sem (ms : Bool) (h : FnHandler) (σ : SMap) (I : Interp) (hI : I.WF) {args : List Term} {p : Payload}
+    (hwf : (Term.node .arrayValue args p).wf = true) (hn : normalNode .arrayValue p args = true)
+    (hck : ConstKeys (.node .arrayValue args p) = true)
+    (hSw : ∀ a ∈ args, (substG ms h σ.toTMap a).wf = true) :
+    eval I (mkArray p (args.map (substG ms h σ.toTMap))) =
+      evalOp I .arrayValue p ((args.map (substG ms h σ.toTMap)).map (eval I)) := by
+  have hwt := Term.wf_wt _ hwf
+  obtain ⟨hchwf, _, _⟩ := Term.wf_node.mp hwf
+  obtain ⟨idx, e, d, rest, rfl, rfl, hd, hc, _⟩ := Simp.ArrayRules.typeOf_arrayValue_inv (wt_typeOf_some _ hwt)
+  obtain ⟨hp, hflat⟩ := Simp.ArrayRules.chk_pairs idx e rest hc
+  have hconst := ConstKeys_here hck
+  simp only [List.tail_cons] at hconst
+  cases hps : pairsOf rest with
+  | nil =>
+    have hr : rest = [] := by rw [hflat, ← pairsOf_eq_pairs, hps]; rfl
+    subst hr
+    have e1 : mkArray (.ty idx) ([d].map (substG ms h σ.toTMap)) =
+        .node .arrayValue [substG ms h σ.toTMap d] (.ty idx) := by
+      simp [mkArray, pairsOf, pyDict, unpairs]
+    rw [e1, eval_plain I .arrayValue _ _ (by decide) (by decide) rfl]
+    rfl
+  | cons kv0 tl =>
+    have hkv0 : kv0 ∈ pairsOf rest := by rw [hps]; simp
+    have hidx : idx.scalar = true :=
+      const_scalar kv0.1 (hconst kv0 hkv0) idx (hp kv0 (by rw [← pairsOf_eq_pairs]; exact hkv0)).1
+    have hkeep : ∀ kv ∈ pairsOf rest, substG ms h σ.toTMap kv.1 = kv.1 := fun kv hkv =>
+      substG_const ms h σ kv.1 (hconst kv hkv) (hchwf _ (List.mem_cons_of_mem _ (mem_pairsOf hkv).1))
+    have hkeys : ((pairsOf (rest.map (substG ms h σ.toTMap))).map Prod.fst) = (pairsOf rest).map Prod.fst := by
+      rw [pairsOf_map, List.map_map]
+      exact List.map_congr_left (fun kv hkv => hkeep kv hkv)
+    rw [List.map_cons]
+    apply eval_mkArray I hI hidx
+    · intro kv' hkv'
+      rw [pairsOf_map] at hkv'
+      obtain ⟨kv, hkv, rfl⟩ := List.mem_map.mp hkv'
+      simp only [hkeep kv hkv]
+      have hm := mem_pairsOf hkv
+      exact ⟨⟨hchwf _ (List.mem_cons_of_mem _ hm.1), hconst kv hkv⟩,
+        (hp kv (by rw [← pairsOf_eq_pairs]; exact hkv)).1⟩
+    · rw [hkeys]; exact normal_array_nodup hn
+
 /-- where a negation in the result of a most-specific substitution (without interpretations) comes
 from when the term itself is not a negation: it is a replacement value -/
 theorem ms_not_origin {h : FnHandler} (hh : HandlerTyped h) (hnone : ∀ f as, h f as = none)
     {op : Op} {args : List Term} {p : Payload} {σ : SMap} (hσ : SMapOK σ)
     (hwf : (Term.node op args p).wf = true) (hn : normal (.node op args p) = true)
-    (ha : ArrOK (.node op args p) = true) (hop : op ≠ .not) {b : Term} {pl : Payload}
+    (hop : op ≠ .not) {b : Term} {pl : Payload}
     (he : substG true h σ.toTMap (.node op args p) = .node .not [b] pl) :
     ∃ x, (x, Term.node .not [b] pl) ∈ σ := by
   have hwt := Term.wf_wt _ hwf
   have iht : ∀ a ∈ args, (substG true h (bodyMap σ.toTMap op p) a).wt = true ∧
       (substG true h (bodyMap σ.toTMap op p) a).typeOf = a.typeOf :=
     fun a hm => substG_type true hh a _ (hσ.wfMap.bodyMap op p).tyMap (Term.wt_child hwt a hm)
-      (normal_child hn a hm) (ArrOK_child ha a hm)
+      (normal_child hn a hm)
   have hs : SameTypes args (args.map (substG true h (bodyMap σ.toTMap op p))) := by
     constructor
     · intro a' ha'
@@ -386,20 +504,24 @@ theorem ms_not_origin {h : FnHandler} (hh : HandlerTyped h) (hnone : ∀ f as, h
   | none =>
     rw [hl] at he
     simp only at he
-    have hsh := rebuild_shape hwt (normal_here hn) hs (ArrOK_here ha)
+    have hsh := rebuild_shape hwt (normal_here hn) hs
     generalize rebuild op p (args.map (substG true h (bodyMap σ.toTMap op p))) = r at he hsh
     cases hsh with
     | node => simp only [Term.node.injEq] at he; exact absurd he.1 hop
     | notNot b' pl' ho _ => exact absurd ho hop
     | toRealConst v _ _ => simp [Term.real] at he
     | divConst a' c _ _ _ => simp at he
+    | array _ =>
+      cases hl' : args.map (substG true h (bodyMap σ.toTMap op p)) with
+      | nil => rw [hl'] at he; simp [mkArray] at he
+      | cons d' rest' => rw [hl', mkArray_cons] at he; simp at he
 
 
 /-- **Substitution lemma**, general form (both strategies, with an interpretation handler). -/
 theorem substG_sem (ms : Bool) {h : FnHandler} {defs : List (Sym × Def)} (hcl : DefsClosed defs)
     (hh : HandlerTyped h) (hw : HandlerWf h) (hsem : HSem h defs)
     (hms : ms = true → ∀ f as, h f as = none) :
-    (t : Term) → ∀ (σ : SMap) (I : Interp), I.WF → t.wf = true → normal t = true → ArrOK t = true →
+    (t : Term) → ∀ (σ : SMap) (I : Interp), I.WF → t.wf = true → normal t = true → ConstKeys t = true →
       SMapOK σ → NoCapture σ t = true → (ms = true → MSSafe σ) →
       eval I (substG ms h σ.toTMap t) = eval (upd I σ defs) t
   | .node op args p, σ, I, hI, hwf, hn, ha, hσ, hnc, hsafe => by
@@ -428,12 +550,11 @@ theorem substG_sem (ms : Bool) {h : FnHandler} {defs : List (Sym × Def)} (hcl :
     have ih : ∀ a ∈ args, ∀ J : Interp, J.WF →
         eval J (substG ms h σc.toTMap a) = eval (upd J σc defs) a :=
       fun a hm J hJ => substG_sem ms hcl hh hw hsem hms a σc J hJ (hchwf a hm) (normal_child hn a hm)
-        (ArrOK_child ha a hm) hσc (hncc a hm) hσcsafe
+        (ConstKeys_child ha a hm) hσc (hncc a hm) hσcsafe
     have iht : ∀ a ∈ args, (substG ms h σc.toTMap a).wt = true ∧ (substG ms h σc.toTMap a).typeOf = a.typeOf :=
       fun a hm => substG_type ms hh a _ hσc.wfMap.tyMap (Term.wt_child hwt a hm) (normal_child hn a hm)
-        (ArrOK_child ha a hm)
     have ihw : ∀ a ∈ args, (substG ms h σc.toTMap a).wf = true :=
-      fun a hm => substG_wf ms hh hw a _ hσc.wfMap (hchwf a hm) (normal_child hn a hm) (ArrOK_child ha a hm)
+      fun a hm => substG_wf ms hh hw a _ hσc.wfMap (hchwf a hm) (normal_child hn a hm)
     have hs : SameTypes args (args.map (substG ms h σc.toTMap)) := by
       constructor
       · intro a' ha'
@@ -497,7 +618,7 @@ theorem substG_sem (ms : Bool) {h : FnHandler} {defs : List (Sym × Def)} (hcl :
             · next heq _ => exact absurd rfl hfun
             · rfl
           rw [hbuild]
-          have hsh := rebuild_shape hwt (normal_here hn) hs (ArrOK_here ha)
+          have hsh := rebuild_shape hwt (normal_here hn) hs
           by_cases hq : op.isQuantifier = true
           · -- a quantifier
             obtain ⟨vs, rfl⟩ := shapeOK_quant hq hshape
@@ -511,6 +632,7 @@ theorem substG_sem (ms : Bool) {h : FnHandler} {defs : List (Sym × Def)} (hcl :
               | notNot _ _ ho _ => subst ho; cases hq
               | toRealConst _ ho _ => subst ho; cases hq
               | divConst _ _ ho _ _ => subst ho; cases hq
+              | array ho => subst ho; cases hq
             rw [hnode]
             refine ⟨?_, fun _ => lookup_toTMap_ne _ _ (not_sym_of_op hsym)⟩
             have hcapt : ∀ y u, σc.get y = some u → y ∈ b.fv → ∀ z ∈ u.fv, z ∉ vs := by
@@ -564,7 +686,11 @@ theorem substG_sem (ms : Bool) {h : FnHandler} {defs : List (Sym × Def)} (hcl :
                 exact allAre_cons_some (x := tyOf b) (rest := []) (t := .bool) (by split at h2 <;> simp_all)
               exact eval_bool_of_wf hbwf hbty hI
             constructor
-            · rw [eval_shape hsym hfun hq' hsh hnot, hmapI I hI, eval_plain _ op args p hsym hfun hq']
+            · have harr : op = .arrayValue → eval I (mkArray p (args.map (substG ms h σc.toTMap))) =
+                  evalOp I .arrayValue p ((args.map (substG ms h σc.toTMap)).map (eval I)) := by
+                intro ho; subst ho
+                exact mkArray_sem ms h σc I hI hwf (normal_here hn) ha ihw
+              rw [eval_shape hsym hfun hq' hsh hnot harr, hmapI I hI, eval_plain _ op args p hsym hfun hq']
               exact evalOp_congr I (upd I σc defs) rfl rfl op p _
             · intro hm
               subst hm
@@ -581,12 +707,18 @@ theorem substG_sem (ms : Bool) {h : FnHandler} {defs : List (Sym × Def)} (hcl :
                   have hop : oa ≠ .not := by
                     simp only [normalNode, Term.op, bne_iff_ne, ne_eq] at hnn; exact hnn
                   obtain ⟨x, hx⟩ := ms_not_origin hh (hms rfl) hσ (hchwf _ (by simp))
-                    (normal_child hn _ (by simp)) (ArrOK_child ha _ (by simp)) hop hargs
+                    (normal_child hn _ (by simp)) hop hargs
                   exact hsafe rfl (x, _) hx r pl rfl
               | toRealConst v _ _ =>
                 apply lookup_toTMap_ne
                 intro x e; simp [Term.real, Term.sym] at e
               | divConst a' c _ _ _ => exact lookup_toTMap_ne _ _ (not_sym_of_op (by decide))
+              | array _ =>
+                apply lookup_toTMap_ne
+                intro x e
+                cases hl' : args.map (substG true h σc.toTMap) with
+                | nil => rw [hl'] at e; simp [mkArray, Term.sym] at e
+                | cons d' rest' => rw [hl', mkArray_cons] at e; simp [Term.sym] at e
       obtain ⟨hev, hlk2⟩ := hkey
       cases ms
       · simp only [Bool.false_eq_true, if_false, hlk]; exact hev
@@ -604,7 +736,7 @@ theorem defsClosed_nil : DefsClosed [] := fun _ h => by cases h
 
 /-- **Substitution lemma** for symbol-keyed maps, without function interpretations. -/
 theorem subst_sem (ms : Bool) (t : Term) (σ : SMap) (I : Interp) (hI : I.WF) (hwf : t.wf = true)
-    (hn : normal t = true) (ha : ArrOK t = true) (hσ : SMapOK σ) (hnc : NoCapture σ t = true)
+    (hn : normal t = true) (ha : ConstKeys t = true) (hσ : SMapOK σ) (hnc : NoCapture σ t = true)
     (hsafe : ms = true → MSSafe σ) :
     eval I (substG ms noInterp σ.toTMap t) = eval (updSyms I σ) t := by
   rw [← upd_nil]
